@@ -85,7 +85,7 @@ def gen_history(rng, typ, nops=None, finale=None):
             ops.append(["W", 102, rng.choice([ADD, REM]), e])
             ops.append(["S", 102, rng.choice([0, 1])]); npool += 1
             ops.append(["D", 100, npool - 1]); ops.append(["D", 101, npool - 1])
-    return {"type": typ, "ids": rng.choice(["str", "num", "tup"]) if typ != "gcounter" else rng.choice(["str", "num"]),
+    return {"type": typ, "ids": rng.choice(["str", "num", "tup", "rec", "nest"]) if typ != "gcounter" else rng.choice(["str", "num"]),
             "ops": ops, "kind": "history"}
 
 
@@ -175,10 +175,15 @@ class Ghost:
             return x in self.events[y]["past"]
         conc = [(x, y) for x in evs for y in evs
                 if self.events[x]["arg"][0] == ADD and self.events[y]["arg"][0] == REM and not hb(x, y) and not hb(y, x)]
-        if not conc:
-            return "no-concurrent-add-remove"
-        # the known AWORSet defect needs a third update of the element (later or stale) besides the concurrent pair
-        return "concurrent-add-remove" if len(evs) >= 3 else "concurrent-pair-only"
+        if conc:
+            # the known AWORSet defect needs a third update of the element (later or stale) besides the concurrent pair
+            return "concurrent-add-remove" if len(evs) >= 3 else "concurrent-pair-only"
+        # no add is concurrent with a remove. Proved class (coq: aw_removes_ordered => convergence + read semantics):
+        # no remove is concurrent with any update of the element; the rest (concurrent removes only) is not
+        # covered by a theorem. A failure in either class is a VIOLATION.
+        rr = [(x, y) for x in evs for y in evs if x < y
+              and self.events[x]["arg"][0] == REM and self.events[y]["arg"][0] == REM and not hb(x, y) and not hb(y, x)]
+        return "concurrent-removes-only" if rr else "removes-ordered"
 
 
 def oracle(case, res, ts):
@@ -401,8 +406,9 @@ MANIFEST = {
              "vector-clock order independently of iteration order, merge_comm, merge_idem, write_inflationary, order_irrelevant, gob_preserves, "
              "read = add entries, reachable_wf; strong convergence and associativity are REFUTED (aworset_convergence_refuted, "
              "aworset_merge_assoc_refuted: witnesses by vm_compute, replayed on the Go code) and recorded as known findings; "
-             "positive partial theorems aworset_convergence_partial / aworset_read_partial for histories without concurrent updates of one "
-             "element, and aworset_merge_assoc_partial on states with comparable entries."),
+             "positive partial theorems aworset_convergence_partial_wide / aworset_read_partial_wide for every history in which no remove is "
+             "concurrent with another update of the same element (concurrent adds allowed; contains aw_sequential), "
+             "and aworset_merge_assoc_partial on states with comparable entries."),
     "level_note": ("Trusted: Coq kernel; the hand-written model (tie = differential testing on 240 quick / 6000 thorough histories, so a code "
                    "change is caught only if a generated history reaches it); tla.Value identifiers abstracted to Z; gob primitives; time.Now as oracle. "
                    "AWORSet: convergence is false in general (partial theorems only); failures on elements with a concurrent add/remove pair plus a third "
